@@ -1217,9 +1217,137 @@ def tie_select(case):
 
 # ---------------------------------------------------------------------------------------------
 
+
+# ---------------------------------------------------------------------------------------------
+# round 6: the decisions of FastFourierTransform.__init__ that compare floats with a fixed tolerance are scale dependent.
+# Family `tie-scale`: (a) grid pairs whose coordinates are of order 2^k, k in [-40, 40], with an output shift given as a
+# fraction of the output pixel (the property is scale free: the same weighted Fourier sum in any unit); (b) one very long axis
+# (> 1e5 samples) zero-padded or cropped by one or two samples.  Every implementation against the defining sum.
+
+def gen_scale(rng):
+    if rng.random() < 0.12:
+        N = int(rng.integers(100001, 260000))
+        pad = int(rng.integers(0, 3))
+        crop = int(rng.integers(0, 3)) if pad else int(rng.integers(1, 3))
+        return {'family': 'tie-scale', 'style': 'long-axis', 'N': [N], 'M': [N + pad], 'Mo': [N + pad - crop], 'k': 0, 'mant': [1.0], 'zero_px': [-(N // 2) + 0.0],
+                'frac': [0.0 if rng.random() < 0.5 else 0.25], 'emu': bool(rng.integers(0, 2)), 'seed': int(rng.integers(0, 2 ** 31))}
+    ndim = 1 if rng.random() < 0.6 else 2
+    N = [int(rng.integers(1, 10)) for _ in range(ndim)]
+    M = [n if rng.random() < 0.3 else int(rng.integers(n, 3 * n + 1)) for n in N]
+    Mo = [m if rng.random() < 0.5 else int(rng.integers(1, m + 1)) for m in M]
+    k = int(rng.integers(-40, 41))
+
+    def frac():
+        r = rng.random()
+        if r < 0.15:
+            return 0.0
+        if r < 0.55:
+            return float((-1) ** int(rng.integers(0, 2)) * 2.0 ** (-int(rng.integers(0, 31))))       # down to 1e-9 of an output pixel
+        return dy(rng, -2, 2, 4)
+    return {'family': 'tie-scale', 'style': 'scale', 'N': N, 'M': M, 'Mo': Mo, 'k': k, 'mant': [dy_nz(rng, 0.5, 2.0, 3) for _ in N],
+            'zero_px': [dy(rng, -float(n), 1.0, 2) for n in N], 'frac': [frac() for _ in N], 'emu': bool(rng.integers(0, 2)), 'seed': int(rng.integers(0, 2 ** 31))}
+
+
+def tie_scale(case):
+    import hcipy
+    from harness.props import c01
+    t = Tie()
+    ndim = len(case['N'])
+    N, M, Mo = np.array(case['N']), np.array(case['M']), np.array(case['Mo'])
+    delta = np.array([m * 2.0 ** (-case['k']) for m in case['mant']])
+    zero = np.array(case['zero_px']) * delta
+    g = _reg_grid(delta, N, zero, None)
+    q = M / N
+    fov = np.where(Mo == M, 1.0, (Mo + 0.5) / M)
+    du = 2 * np.pi / (M * delta)
+    shift = np.array(case['frac']) * du
+    long_axis = case['style'] == 'long-axis'
+    t.counts = ['tie-scale:' + case['style'], 'tie-scale:coordinate-scale-2^%+03d..' % (10 * (case['k'] // 10)),
+                'tie-scale:shift-' + ('zero' if not np.any(shift) else ('below-1e-8-absolute' if np.all(np.abs(shift) <= 1e-8) else 'above-1e-8-absolute'))]
+    what = 'N=%s internal %s out %s, input spacing %s, output shift %s (%s output pixels)' % (case['N'], case['M'], case['Mo'], delta.tolist(), shift.tolist(), case['frac'])
+    impls = []
+    try:
+        f0 = hcipy.FastFourierTransform(g, q, fov, shift, emulate_fftshifts=case['emu'])
+        impls.append(('fft-' + ('emu' if case['emu'] else 'std'), f0))
+        if list(f0.internal_shape[::-1]) != list(M) or list(f0.shape_out[::-1]) != list(Mo):
+            t.counts.append('tie-scale:sizes-differ-from-request')
+        og = f0.output_grid
+        if not long_axis:
+            impls.append(('fft-' + ('std' if case['emu'] else 'emu'), hcipy.FastFourierTransform(g, q, fov, shift, emulate_fftshifts=not case['emu'])))
+            impls.append(('mft', hcipy.MatrixFourierTransform(g, og)))
+            impls.append(('nft', hcipy.NaiveFourierTransform(g, og, precompute_matrices=bool(case['seed'] % 2))))
+            impls.append(('zoom', hcipy.ZoomFastFourierTransform(g, og)))
+            impls.append(('auto', hcipy.make_fourier_transform(g, q=q, fov=fov, shift=shift)))
+    except Exception as e:  # noqa
+        t.bad.append(('tie-scale-raises', 'constructing a transform for %s raised %s: %s' % (what, type(e).__name__, e)))
+        return t
+    rng = np.random.default_rng(case['seed'])
+    x = rng.normal(size=g.size) + 1j * rng.normal(size=g.size)
+    y = rng.normal(size=og.size) + 1j * rng.normal(size=og.size)
+    si, fi, wi = c01.grid_desc(g)
+    so, fo, wo = c01.grid_desc(og)
+    wo2 = wo / (TWO_PI_LD ** ndim)
+    if long_axis:
+        # the defining sum at a handful of points only
+        ko = np.unique(np.concatenate([[0, og.size - 1, og.size // 2], rng.integers(0, og.size, 5)]))
+        ki = np.unique(np.concatenate([[0, g.size - 1, g.size // 2], rng.integers(0, g.size, 5)]))
+        ref_f = np.array([np.sum(x.astype(CLD) * wi * np.exp(CLD(-1j) * (fo[0][k] * fi[0]))) for k in ko]).reshape(1, -1)
+        ref_b = np.array([np.sum(y.astype(CLD) * wo2 * np.exp(CLD(1j) * (fo[0] * fi[0][j]))) for j in ki]).reshape(1, -1)
+    else:
+        ko, ki = slice(None), slice(None)
+        ref_f = c01.ref_sum(si, fi, wi, so, fo, x.reshape(1, -1), -1, ndim)
+        ref_b = c01.ref_sum(so, fo, wo, si, fi, y.reshape(1, -1), +1, ndim) / (TWO_PI_LD ** ndim)
+    sc_f = max(float(np.abs(ref_f).max()), 1e-3 * float(np.sum(np.abs(x)) * np.abs(wi)), 1e-300)
+    sc_b = max(float(np.abs(ref_b).max()), 1e-3 * float(np.sum(np.abs(y)) * np.abs(wo2)), 1e-300)
+    tol = 1e-9 if not long_axis else 1e-8
+    for name, ft in impls:
+        if name == 'auto' and not c01.grids_close(ft.output_grid, og):
+            t.bad.append(('tie-scale-selection-grid', 'make_fourier_transform(q, fov, shift) for %s returns an object with another output grid' % what))
+            continue
+        try:
+            F = np.asarray(ft.forward(hcipy.Field(x.copy(), g)))
+            B = np.asarray(ft.backward(hcipy.Field(y.copy(), og)))
+        except Exception as e:  # noqa
+            t.bad.append(('tie-scale-raises', '%s for %s raised %s: %s' % (name, what, type(e).__name__, e)))
+            continue
+        if F.size != og.size or B.size != g.size:
+            t.bad.append(('tie-scale-shape', '%s for %s returned %d / %d samples for grids of %d / %d points' % (name, what, F.size, B.size, og.size, g.size)))
+            continue
+        e = maxerr(F[ko], ref_f)
+        t.counts.append('tie-scale:compared-' + name)
+        if not e <= tol * sc_f:
+            t.bad.append(('tie-scale-forward', '%s.forward for %s differs from the defining sum over its own grids by %.3g (scale %.3g)' % (name, what, e, sc_f)))
+        e = maxerr(B[ki], ref_b)
+        if not e <= tol * sc_b:
+            t.bad.append(('tie-scale-backward', '%s.backward for %s differs from the defining sum over its own grids by %.3g (scale %.3g)' % (name, what, e, sc_b)))
+    # correspondence: the three decisions of __init__ against Model/FftDecide.lean (the repaired, exact decisions)
+    obs = [ft for name, ft in impls if name == 'fft-std']
+    if obs:
+        ft = obs[0]
+        Mi, Ni, Moi = [int(v) for v in ft.internal_shape], [int(v) for v in ft.shape_in], [int(v) for v in ft.shape_out]
+        seen = (ft.shift_output is not None, ft.cutout_input is not None, ft.cutout_output is not None)
+        t.lines = ['C01 decide shift %s' % rat_list([float(v) for v in shift]), 'C01 decide cutout %s %s' % (nat_list(Mi), nat_list(Ni)),
+                   'C01 decide cutout %s %s' % (nat_list(Mi), nat_list(Moi))]
+
+        def check(rs):
+            for r, got, name in zip(rs, seen, ('the output-shift multiplier is applied', 'a zero-padding cut-out is used', 'a cropping cut-out is used')):
+                p = r.split()
+                if p[0] != 'ok':
+                    return 'model: ' + r
+                if (p[1] == '1') != got:
+                    return '%s: implementation %r, model %s (np.allclose would give %s) for %s' % (name, got, p[1], p[2], what)
+                if p[1] != p[2]:
+                    t_old.append(name)
+            return None
+        t_old = []
+        t.check = check
+    t.sig = ('tie-scale', case['style'], tuple(case['N']), tuple(case['M']), tuple(case['Mo']), case['k'], tuple(case['frac']))
+    return t
+
+
 GEN = {'tie-mft': (gen_mft, tie_mft), 'tie-czt': (gen_czt, tie_czt), 'tie-zoom': (gen_zoom, tie_zoom), 'tie-zoomaxes': (gen_zoomaxes, tie_zoomaxes),
        'tie-state': (gen_state, tie_state), 'tie-lit': (gen_lit, tie_lit), 'tie-select': (gen_select, tie_select),
-       'tie-roundtrip': (gen_roundtrip, tie_roundtrip), 'tie-fftw': (gen_fftw, tie_fftw), 'tie-nft': (gen_nft, tie_nft), 'tie-mux': (gen_mux, tie_mux), 'tie-mftstate': (gen_mftstate, tie_mftstate)}
+       'tie-roundtrip': (gen_roundtrip, tie_roundtrip), 'tie-fftw': (gen_fftw, tie_fftw), 'tie-nft': (gen_nft, tie_nft), 'tie-mux': (gen_mux, tie_mux), 'tie-mftstate': (gen_mftstate, tie_mftstate), 'tie-scale': (gen_scale, tie_scale)}
 
 DIRECTED = [
     {'family': 'tie-mftstate', 'ndim': 2, 'pre': True, 'alloc': True, 'n': [3, 2], 'm': [2, 3], 'uniform_w': True, 'seed': 1,
